@@ -154,8 +154,8 @@ func (p *Parser) parseComparisonExpression() (ast.Expression, error) {
 		operator := p.currentToken.Literal
 		p.advance() // Consume LIKE/ILIKE
 
-		// Parse pattern
-		pattern, err := p.parsePrimaryExpression()
+		// Parse pattern (may be an expression such as 'a' || '%')
+		pattern, err := p.parseStringConcatExpression()
 		if err != nil {
 			return nil, goerrors.InvalidSyntaxError(
 				fmt.Sprintf("failed to parse LIKE pattern: %v", err),
@@ -338,8 +338,9 @@ func (p *Parser) parseComparisonExpression() (ast.Expression, error) {
 			}, nil
 		}
 
-		// Parse the right side of the expression
-		right, err := p.parsePrimaryExpression()
+		// Parse the right side of the expression. Arithmetic and || bind tighter
+		// than comparison, so the operand is parsed at that level (a = b + 1).
+		right, err := p.parseStringConcatExpression()
 		if err != nil {
 			return nil, err
 		}
